@@ -372,27 +372,24 @@ fn step_task(s: &MState, t: usize, p: &Prog, pol: &Policy) -> Step {
         }
         Op::BarrierWait(b) => match ph {
             0 => {
-                let MObj::Barrier { n: bound, arrived, released } = &mut n.objs[*b] else { unreachable!() };
+                let MObj::Barrier { n: bound, arrived, .. } = &mut n.objs[*b] else { unreachable!() };
                 arrived.push(t);
                 if arrived.len() >= *bound {
+                    // the arrival that completes the group does not block: it releases the others and
+                    // returns in the same step (arrive and return are one atomic operation for it)
                     let members = std::mem::take(arrived);
-                    if pol.barrier_leader_any {
-                        let mut outs = vec![];
-                        for leader in members.iter() {
-                            let mut k = n.clone();
-                            let MObj::Barrier { released, arrived, .. } = &mut k.objs[*b] else { unreachable!() };
-                            arrived.clear();
-                            for m in members.iter() {
-                                released.push((*m, m == leader));
-                            }
-                            k.phase[t] = 1;
-                            outs.push(k);
+                    let leaders: Vec<usize> = if pol.barrier_leader_any { members.clone() } else { vec![t] };
+                    let mut outs = vec![];
+                    for leader in leaders {
+                        let mut k = n.clone();
+                        let MObj::Barrier { released, arrived, .. } = &mut k.objs[*b] else { unreachable!() };
+                        arrived.clear();
+                        for m in members.iter().filter(|m| **m != t) {
+                            released.push((*m, *m == leader));
                         }
-                        return Step::Next(outs);
+                        outs.push(done(k, t, (leader == t) as i64, p, pol));
                     }
-                    for m in members.iter() {
-                        released.push((*m, *m == t));
-                    }
+                    return Step::Next(outs);
                 }
                 n.phase[t] = 1;
                 Step::Next(vec![n])
